@@ -66,6 +66,7 @@ func runC04(rt *rapid.T, st *stats.Collector) {
 	case "undecodable-block":
 		badItem = Item{Kind: "raw", Raw: append([]byte{ref.ServerDataCode, 0}, rapid.SliceOfN(rapid.Byte(), 1, 30).Draw(rt, "garbage")...)}
 	}
+	pingCancelled := rapid.IntRange(0, 2).Draw(rt, "ping-with-cancelled-context-first") == 0
 	surplus := rapid.IntRange(1, 3).Draw(rt, "surplus")
 	chainLen := rapid.IntRange(1, 8).Draw(rt, "exception-chain-length")
 	insertAt := rapid.IntRange(0, 6).Draw(rt, "fault-position")
@@ -149,6 +150,12 @@ func runC04(rt *rapid.T, st *stats.Collector) {
 	}
 	if fault == "callback-fails" {
 		g.failCbAt = rapid.IntRange(0, 3).Draw(rt, "failing-callback-call")
+		if rapid.IntRange(0, 2).Draw(rt, "callback-error-wraps-exception") == 0 {
+			// The callback fails with an error it got elsewhere, e.g. from a query it ran on
+			// another connection: a *ch.Exception somewhere in its chain.
+			g.cbErr = fmt.Errorf("nested query on another connection: %w", &ch.Exception{Code: 60, Name: "DB::Exception", Message: "Table default.other doesn't exist"})
+			st.Label("callback-error-wraps-exception")
+		}
 	}
 	// Total server bytes (for cut positions) are known only as they are emitted; cut/write-error positions are
 	// drawn relative to what the sane exchange produces (dry numbers: a few hundred bytes).
@@ -251,6 +258,16 @@ func runC04(rt *rapid.T, st *stats.Collector) {
 		// ... and the next request starts with its own first byte.
 		g.e.srv.Manual = false
 		g.e.srv.AutoPong = true
+		if pingCancelled {
+			// A request that fails before anything is written (its context is already cancelled)
+			// must not leave its bytes behind for the next request either.
+			cctx, ccancel := context.WithCancel(context.Background())
+			ccancel()
+			if err := g.client.Ping(cctx); err == nil {
+				rt.Fatalf("Ping with a cancelled context returned nil\n%s", describe())
+			}
+			st.Label("ping-with-cancelled-context-before-follow-up")
+		}
 		nw := g.e.conn.NumWrites()
 		pingErr := g.client.Ping(context.Background())
 		w2, _ := g.e.conn.Snapshot()
